@@ -131,6 +131,11 @@ func (w *World) verifyFuncOnce(fi *FuncInfo, props []string, prefix []int, pathM
 		// as an unannotated function (safety sweep), not against the assumption
 		cp := *fi
 		cp.Spec = nil
+		if len(fi.Spec.Asserts) > 0 {
+			// statement-anchored assertions are about the body, not about what callers see: they are checked
+			cp.Spec = &FuncSpec{Key: fi.Spec.Key, PkgPath: fi.Spec.PkgPath, Name: fi.Spec.Name, Asserts: fi.Spec.Asserts, Props: fi.Spec.Props,
+				File: fi.Spec.File, Line: fi.Spec.Line, Flags: map[string]string{}, Loops: map[int]*LoopSpec{}}
+		}
 		fi = &cp
 	}
 	res = &FuncResult{Key: fi.Key, HasSpec: fi.Spec != nil}
